@@ -641,4 +641,64 @@ theorem leKeys_total (o : List Bool) (a b : Hit) : (leKeys o a b || leKeys o b a
   have := cmpKeys_antisymm o a.keys b.keys
   omega
 
+/-! ### internalRoute -/
+
+/-- loop invariant: the loop test can only fail with an error recorded -/
+def RouteInv (retries : Nat) (st : RouteSt) : Prop := st.i ≥ retries → st.retryErr ≠ none
+
+/-- requests written to a live client -/
+def RouteSt.written (st : RouteSt) : Nat := st.answeredOk + st.answeredErr + st.lost
+
+/-- what one iteration can do -/
+theorem routeIter_spec (ev : Ev) (st : RouteSt) :
+    match routeIter ev st with
+    | .cont st' => st'.answeredOk = st.answeredOk ∧
+        ((st'.i = st.i ∧ st'.written = st.written) ∨ (st'.i = st.i + 1 ∧ st'.retryErr ≠ none ∧ st'.written ≤ st.written + 1))
+    | .done err st' => st'.written = st.written + 1 ∧
+        (err = none → st'.answeredOk = st.answeredOk + 1) ∧ (err ≠ none → st'.answeredOk = st.answeredOk) := by
+  unfold routeIter RouteSt.written
+  cases hc : st.cache <;> cases hd : ev.dial <;> cases hx : ev.dies <;> cases hcall : ev.call <;> simp <;> omega
+
+theorem route_spec (retries : Nat) : ∀ (evs : List Ev) (st : RouteSt), RouteInv retries st →
+    ((route retries evs st).res = .ret none → (route retries evs st).st.answeredOk = st.answeredOk + 1) ∧
+    ((route retries evs st).res ≠ .ret none → (route retries evs st).st.answeredOk = st.answeredOk) ∧
+    (route retries evs st).st.written + st.i ≤ st.written + max retries st.i
+  | [], st, hinv => by
+    unfold route
+    by_cases h : st.i ≥ retries
+    · simp only [h, if_true]
+      refine ⟨fun e => ?_, fun _ => trivial, by omega⟩
+      have := hinv h
+      simp only [RouteRes.ret.injEq] at e
+      exact absurd e this
+    · simp only [h, if_false]
+      exact ⟨fun e => (by cases e), fun _ => trivial, by omega⟩
+  | ev :: rest, st, hinv => by
+    unfold route
+    by_cases h : st.i ≥ retries
+    · simp only [h, if_true]
+      refine ⟨fun e => ?_, fun _ => trivial, by omega⟩
+      have := hinv h
+      simp only [RouteRes.ret.injEq] at e
+      exact absurd e this
+    · simp only [h, if_false]
+      have hs := routeIter_spec ev st
+      cases hit : routeIter ev st with
+      | cont st' =>
+        simp only [hit] at hs ⊢
+        obtain ⟨hok, hcase⟩ := hs
+        have hinv' : RouteInv retries st' := by
+          intro hge
+          rcases hcase with ⟨hi, _⟩ | ⟨_, hne, _⟩
+          · omega
+          · exact hne
+        have ih := route_spec retries rest st' hinv'
+        rw [hok] at ih
+        refine ⟨ih.1, ih.2.1, ?_⟩
+        rcases hcase with ⟨hi, hw⟩ | ⟨hi, _, hw⟩ <;> omega
+      | done err st' =>
+        simp only [hit] at hs ⊢
+        obtain ⟨hw, h1, h2⟩ := hs
+        refine ⟨fun e => h1 (by simpa using e), fun e => h2 (fun e' => e (by rw [e'])), by omega⟩
+
 end Sema.C17
